@@ -179,6 +179,7 @@ def run(ctx):
                 tasks.append((shard, (kind, cfgname, part, 2, ctx.shard_seed(k), ctx.n(0.35, 1.0))))
                 k += 1
     tasks += [(e1prop.shard, ('vf.props.c11:ENTRY_PLAN', ctx.shard_seed(700 + i), ctx.n(250, 5000))) for i in range(8)]
+    tasks += e1prop.history_tasks(ctx, 'vf.props.c11:ENTRY_PLAN', quick=250)
     ctx.pmap(_dispatch, tasks)
     ctx.acc.exhaustive = not ctx.quick
     ctx.acc.extra['enumerated_bits_per_kind'] = {k: ['%s<%s>' % b for b in v] for k, v in BITS.items()}
